@@ -5,6 +5,7 @@ pub mod h_tree;
 pub mod h_pack;
 pub mod h_melda;
 pub mod h_c08;
+pub mod h_hist;
 pub mod h_c03;
 pub mod h_c04;
 pub mod h_c15;
@@ -20,6 +21,8 @@ pub fn dispatch(name: &str) -> bool {
         "h_tree::tree_rule" => h_tree::tree_rule(),
         "h_pack::pack_roundtrip" => h_pack::pack_roundtrip(),
         "h_melda::smoke" => h_melda::smoke(),
+        "h_hist::commit_graph" => h_hist::commit_graph(),
+        "h_hist::time_travel" => h_hist::time_travel(),
         "h_c03::commit_reopen" => h_c03::commit_reopen(),
         "h_c04::update_read" => h_c04::update_read(),
         "h_c04::array_chain" => h_c04::array_chain(),
